@@ -28,6 +28,17 @@ const (
 	DefaultGrade = Fair
 )
 
+// Phase has a sentinel that is explicitly not a member.
+type Phase int
+
+const (
+	Start Phase = iota
+	Middle
+	End
+)
+
+const NoPhase Phase = -1 // gomacro:no-enum
+
 type Mood string
 
 const (
